@@ -198,6 +198,13 @@ func genVMScenario(seed uint64, idx int, tier string, snapshotBias bool) *VMScen
 		sc.Progs = append(sc.Progs, ps)
 	}
 
+	membershipProg := -1
+	if len(base.Ss) >= 8 {
+		ps := ProgSpec{Kind: "tiny", Tree: nBin(r.Pick([]string{"in", "not in"}), nID("S"), nID("Ss")), Optimize: true}
+		ps.Source = ps.Src()
+		sc.Progs = append(sc.Progs, ps)
+		membershipProg = len(sc.Progs) - 1
+	}
 	// Budgets are placed just above the largest single-run need so that the
 	// sum over the history crosses the budget many times.
 	maxT := 1
@@ -261,6 +268,13 @@ func genVMScenario(seed uint64, idx int, tier string, snapshotBias bool) *VMScen
 		}
 		if r.Chance(1, 5) {
 			op.Persist, op.Rep, op.Feed, op.Env = true, "", false, 0
+			if membershipProg >= 0 && r.Chance(1, 2) {
+				// membership in the caller's long list, whose elements the caller replaces in place
+				op.Prog = membershipProg
+				op.Mutate = fmt.Sprintf("Ss:%d:%s", r.Intn(9), r.Pick([]string{base.S, base.S, "zz", "other"}))
+				sc.Ops = append(sc.Ops, op)
+				continue
+			}
 			switch r.Intn(4) {
 			case 0:
 				op.Mutate = fmt.Sprintf("Ss:%d:%s", r.Intn(9), r.Pick([]string{"a", "zz", "k1", "new"}))
@@ -360,6 +374,8 @@ var probeSources = []string{
 	// method, lower-case map keys): whether they compile must depend on the
 	// representation alone, not on what the process compiled earlier
 	"PtrM(1)", "PtrM(A) + 1", "index + 1", "not info",
+	// a field promoted from an embedded pointer that is nil: reading it fails, it must not be "repaired" in the caller's value
+	"PromV", "PromV + 1", "[A, PromV]", "EmbV + Lvl",
 }
 
 // genFeedback builds programs that return nested VM-built collections and/or
